@@ -266,6 +266,22 @@ func (bn *baseNode) checkPermission(perm avfs.OpenMode, u avfs.UserReader) bool 
 	return mode&perm == perm
 }
 
+// isOwner returns true if the user is the owner of the node.
+func (bn *baseNode) isOwner(u avfs.UserReader) bool {
+	return bn.uid == u.Uid()
+}
+
+// checkSticky returns true if the user can remove or rename the entry child of the directory :
+// if the directory has the sticky bit set, only the owner of the directory, the owner of the entry
+// or the administrator can.
+func (dn *dirNode) checkSticky(child node, u avfs.UserReader) bool {
+	if dn.mode&fs.ModeSticky == 0 || u.IsAdmin() {
+		return true
+	}
+
+	return dn.isOwner(u) || child.isOwner(u)
+}
+
 // Lock locks the node.
 func (bn *baseNode) Lock() {
 	bn.mu.Lock()
